@@ -215,11 +215,12 @@ type Universe struct {
 	mapKinds map[string][2]string // map comp suffix -> key/val sort
 	boxes    map[string]bool
 	nfresh   int
+	genConsts map[string]bool
 }
 
 func newUniverse() *Universe {
 	u := &Universe{declSet: map[string]bool{}, structs: map[string]*types.Struct{}, anon: map[string]string{},
-		typeIDs: map[string]int{}, faTags: map[string]int{}, compSort: map[string]string{}, mapKinds: map[string][2]string{}, boxes: map[string]bool{}}
+		typeIDs: map[string]int{}, faTags: map[string]int{}, compSort: map[string]string{}, mapKinds: map[string][2]string{}, boxes: map[string]bool{}, genConsts: map[string]bool{}}
 	u.decl("Slice", "(declare-datatypes ((Slice 0)) (((mk_slice (sl_arr Int) (sl_off Int) (sl_len Int) (sl_cap Int)))))")
 	u.decl("Iface", "(declare-datatypes ((Iface 0)) (((mk_iface (if_t Int) (if_v Int)))))")
 	u.decl("ftag", "(declare-fun ftag (Int) Int)")
@@ -248,6 +249,7 @@ func (u *Universe) fresh(prefix string) string {
 func (u *Universe) freshConst(prefix, sort string) string {
 	n := u.fresh(prefix)
 	u.decls = append(u.decls, fmt.Sprintf("(declare-const %s %s)", n, sort))
+	u.genConsts[n] = true
 	return n
 }
 
